@@ -153,6 +153,23 @@ def _t_leg(t, info, model_available):
     else:
         info["mutants"] = "not evaluated (%s)" % ("no applicable mutant: the source does not have the expected shape"
                                                   if model_available else "Coq build failed")
+    if not model_available and os.path.exists(os.path.join(vlib.COQ, "Generated", "MuxCritSec.vo")):
+        # the proof leg broke: say which entry of the regenerated skeleton the check rejects
+        diag = os.path.join(d, "Diag.v")
+        open(diag, "w").write(
+            "From Coq Require Import List String.\nFrom GoHls Require Import Model.MuxAtomic Generated.MuxCritSec.\n"
+            "Definition V := Eval vm_compute in (map (fun f => (f, writer_entry_ok generated f)) (sk_writer generated) ++ "
+            "map (fun f => (f, reader_entry_ok generated f)) (sk_readers generated) ++ "
+            "map (fun f => (f, mutator_ok generated f)) (sk_mutators generated)).\nPrint V.\n")
+        rc, out = vlib.run(["coqc", "-Q", vlib.COQ, "GoHls", "-w", "-all", "Diag.v"], cwd=d, timeout=300)
+        for ext in (".vo", ".vok", ".vos", ".glob"):
+            try:
+                os.remove(diag[:-2] + ext)
+            except OSError:
+                pass
+        if rc == 0:
+            info["entry_verdicts"] = {n: ("accepted" if v == "true" else "REJECTED")
+                                      for n, v in re.findall(r'\("([^"]*)",\s*(true|false)\)', " ".join(out.split()))}
 
 
 def _s_leg(t, ctx, info):
